@@ -1,4 +1,4 @@
-use std::net::SocketAddr;
+use std::net::{IpAddr, SocketAddr};
 
 use http_body_util::Full;
 use hyper::{
@@ -91,7 +91,15 @@ impl HttpListeningExporter {
             },
             |peer_addr| {
                 let remote_ip = peer_addr.ip();
-                addrs.iter().any(|addr| addr.contains(&remote_ip))
+                // An IPv4 client of a dual-stack (IPv6) listener is reported as an IPv4-mapped IPv6
+                // address, which no IPv4 network contains: also match on the IPv4 address it maps.
+                let mapped_ip = match remote_ip {
+                    IpAddr::V6(v6) => v6.to_ipv4_mapped().map(IpAddr::V4),
+                    IpAddr::V4(_) => None,
+                };
+                addrs.iter().any(|addr| {
+                    addr.contains(&remote_ip) || mapped_ip.map_or(false, |ip| addr.contains(&ip))
+                })
             },
         )
     }
